@@ -279,6 +279,18 @@ def native_layouts(chk):
         # same bytes except that every second line feed is a blank: same length, other line structure, analysed right after the
         # original in the same process and under the same file number
         layouts[nm + ' LF, every second line feed a blank (same length)'] = c15.twin(t)
+        # constructs spanning several lines: every blank outside string literals and the pragma line becomes a line feed
+        spread, in_str = [], False
+        for ln in t.split('\n'):
+            if ln.startswith('pragma'):
+                spread.append(ln); continue
+            out_ln = []
+            for ch in ln:
+                if ch == '"':
+                    in_str = not in_str
+                out_ln.append('\n' if ch == ' ' and not in_str and out_ln and out_ln[-1] not in ' \n' else ch)
+            spread.append(''.join(out_ln))
+        layouts[nm + ' one token per line'] = '\n'.join(spread)
         layouts[nm + ' CRLF'] = t.replace('\n', '\r\n')
         layouts[nm + ' CRLF no final line end'] = t.replace('\n', '\r\n').rstrip('\r\n')
         layouts[nm + ' no final line feed'] = t.rstrip('\n')
